@@ -437,6 +437,9 @@ inductive Frame (τ : Type) where
   /-- `try: .. finally:` marker; after the cleanup: re-raise the pending exception -/
   | finallyBlock (cleanup : List (Stmt τ))
   | reraise (e : ExnId)
+  /-- a handler swallowed an exception while the coroutine was being closed (`coroutine.close()`):
+  CPython raises GeneratorExit again at the next enclosing coroutine level (genobject.c `gen_close`) -/
+  | closeResume
   /-- lock: waiting in `__aenter__`; body marker -/
   | lockWait (l : Name) (cont : LockCont τ)
   | lockBody (l : Name) (user : Bool)
